@@ -8,8 +8,11 @@ REPO_FIX_AND_HOOK_COMMITS = ["988c6e2"]
 
 claimed = {
     "C07": dict(cat="exploration", ref="5.1", technique="deterministic simulation: storage-fault injection on generated documents + reader delivery schedules, watchdog and memory-capped child as invariant monitors",
-                text="Seeded search over stored-document corruptions (bit/byte flips, zeroed/duplicated/misdirected ranges, truncation, overwritten length fields, garbage, empty), deep nesting, reader delivery plans, templates (incl. unsupported kinds) and marshal values (incl. unsupported kinds) for every public decode/unmarshal/marshal entry point; invariants per call: returns within the watchdog, no escaped panic, worker process survives under an 8 GiB address-space cap. Exploration is the right level: the input space is unbounded and the failure classes (hang, process death) can only be observed by running the real code under a monitor.",
+                text="Seeded search over stored-document corruptions (bit/byte flips, zeroed/duplicated/misdirected ranges, truncation, overwritten length fields, garbage, empty), deep nesting, reader delivery plans, templates (incl. unsupported kinds) and marshal values (incl. unsupported kinds) for every public decode/unmarshal/marshal entry point; invariants per call: returns within the watchdog, no escaped panic, worker process survives under an 3 GiB address-space cap. Exploration is the right level: the input space is unbounded and the failure classes (hang, process death) can only be observed by running the real code under a monitor.",
                 note="Sampling, not proof. Watchdog is wall-clock (10 s quick / 30 s thorough per call whose normal cost is < 10 ms). Documents <= a few KiB; nesting up to 3000."),
+    "C08": dict(cat="exploration", ref="5.2", technique="deterministic simulation: storage-fault injection aimed at length fields + adversarial document families, allocator (TotalAlloc) and address-space-capped worker as the observed resource, deterministic work-step counters",
+                text="Decides the memory clause: one measured decode per run of a document whose length fields were corrupted in storage, of a short document built around one oversized length header, of a container run or a growing benign family, under several MaxArraySizeBytes settings; allocation during exactly that call must stay within 2*base + 4 MiB + K*len(doc) + 8*MaxArraySizeBytes with base measured in-process and K checked by a start-up calibration (exit 2 if benign families are not 10x below the budget); the worker dying of out-of-memory under its 3 GiB cap is a violation by itself. A work-step bound (reader calls + events <= 8*len+64) stands in for the time clause.",
+                note="The CPU-time clause is NOT decided: deterministic simulation does not measure CPU seconds; superlinear CPU work that makes no extra reader call or event is outside this technique. K is deliberately generous (4096 CBE / 16384 CTE bytes per input byte) because unmarshaling really costs hundreds of bytes per input byte; the violations aimed at are 10^2..10^9 times larger."),
     "C09": dict(cat="fault_enumeration", ref="5.3", technique="deterministic simulation: exhaustive crash-point (cut) enumeration per generated document, prefix relation + completeness reference model",
                 text="For each generated valid document every cut point 0<k<len is enumerated for the from-memory and the reader entry point and for untyped/typed templates; oracle: error returned, partial value is a prefix of the full value, and (event-stream documents) every completely delivered list element / map entry is present per a reference model built from recorded encoder offsets. Fault enumeration is the right level: the crash-point space of one document is finite and small, the document space is sampled.",
                 note="Rule enforcement stays on (with rules disabled nothing is meant to detect a structurally incomplete document). Zero value of a template type counts as 'nothing decoded'. Records and marker-wrapped arrays are excluded from documents because the library's full value for them is already wrong (pure decode defects outside this property). One known finding (CTE token split by the cut)."),
@@ -56,9 +59,7 @@ na = {
     "C27": "pure function of a document's first bytes (the reader entry points' dependence on delivery is C28)",
 }
 
-pending = {
-    "C08": "check not built yet in this commit (DESIGN.md 5.2)",
-}
+pending = {}
 
 def main():
     repo_commits = os.popen("git -C /repo log --format=%h --grep='^verif hooks'").read().split()
